@@ -63,6 +63,44 @@ class Infra(Exception):
     """infrastructure failure: exit 2, never a verdict"""
 
 
+def pure(disp):
+    """The Python-level body of a numba kernel, callable on index-recording arrays even when the kernel has been split
+    into jitted helper functions: while it runs, every numba dispatcher among the globals of the kernel's module is
+    replaced by its own `py_func` (nested helpers included), and put back afterwards — but only when an argument is a
+    recorder (something numba cannot type); with plain arguments the helpers stay compiled.  Objects that are not
+    dispatchers (e.g. a recorder the harness has put in place of a helper) are left alone."""
+    f = getattr(disp, 'py_func', disp)
+    g = getattr(f, '__globals__', None)
+    if g is None:
+        return f
+
+    def plain(x):
+        import numpy as np
+        if x is None or isinstance(x, (bool, int, float, complex, str, bytes, np.generic, type, np.dtype)):
+            return True
+        if isinstance(x, (tuple, list)):
+            return all(plain(y) for y in x)
+        return type(x) is np.ndarray
+
+    def call(*a, **k):
+        from numba.core.registry import CPUDispatcher
+        if all(plain(x) for x in a) and all(plain(x) for x in k.values()):
+            # ordinary arguments: nested helpers stay compiled (numba's integer promotion differs from numpy scalar
+            # arithmetic, e.g. uint8 << 4), exactly as when the kernel's py_func is called directly
+            return f(*a, **k)
+        saved = {n: v for n, v in g.items() if isinstance(v, CPUDispatcher)}
+        for n, v in saved.items():
+            g[n] = v.py_func
+        try:
+            return f(*a, **k)
+        finally:
+            for n, v in saved.items():
+                g[n] = v
+    call.__wrapped__ = f
+    call.__name__ = getattr(f, '__name__', 'pure')
+    return call
+
+
 def log(*a):
     print(*a, file=sys.stderr, flush=True)
 
